@@ -18,9 +18,15 @@ use std::rc::Rc;
 type Er = Error<E>;
 /// model of a time getter's current output
 type ClockOut = Result<i64, Er>;
-/// every clock value, start, delta and set_time target of the `hist` sub-check has |x| <= 2^60, so
-/// |offset| <= 2^61 and |now + offset| <= 3*2^60 < 2^63: no sum or difference overflows.
-const LIM: i64 = 1 << 60;
+/// The `hist` sub-check draws clock values, starts, deltas and set_time targets from strata over the
+/// WHOLE i64 range and constructs each partner quantity inside the interval in which every sum or
+/// difference the crate computes (now + delta, start - now, t - now, -now) stays inside i64
+/// (`pick_in`: stratified candidate clamped into the interval, or a point at / next to its ends).
+/// Clock readings stay > i64::MIN because -now must exist.
+const HALF: i64 = i64::MAX / 2;
+const MINC: i64 = i64::MIN + 1;
+const IMIN: i128 = i64::MIN as i128;
+const IMAX: i128 = i64::MAX as i128;
 
 // ------------------------------------------------------------------------------------------------
 // generators
@@ -48,40 +54,55 @@ fn val(rng: &mut Rng, pool: &[i64]) -> i64 {
         raw_val(rng)
     }
 }
-/// i64 from the magnitude strata, |x| <= 2^60 by construction
-fn bstamp(rng: &mut Rng) -> i64 {
-    match rng.below(10) {
+/// i64 from magnitude strata over the whole range (> i64::MIN): small, ~1e9, ~1e15, 2^60, both sides
+/// of i64::MAX/2 (= 2^62 - 1), ~5e18, the outer half, next to i64::MAX, powers of two, uniform.
+fn wstamp(rng: &mut Rng) -> i64 {
+    let mag = match rng.below(15) {
         0 => 0,
-        1 => rng.range_i64(-1000, 1000),
-        2 => rng.range_i64(-2_000_000_000, 2_000_000_000),
+        1 => rng.range_i64(0, 1000),
+        2 => rng.range_i64(0, 2_000_000_000),
         3 => rng.range_i64(900_000_000_000_000, 1_100_000_000_000_000),
-        4 => -rng.range_i64(900_000_000_000_000, 1_100_000_000_000_000),
-        5 => LIM - rng.range_i64(0, 1000),
-        6 => -LIM + rng.range_i64(0, 1000),
-        7 => rng.range_i64(-(1i64 << 40), 1i64 << 40),
-        8 => {
-            let m = 1i64 << (rng.below(61) as u32);
-            if rng.chance(0.5) {
-                m
-            } else {
-                -m
-            }
-        }
-        _ => rng.range_i64(-LIM, LIM),
+        4 => rng.range_i64(0, 1i64 << 40),
+        5 => (1i64 << 60) + rng.range_i64(-1000, 1000),
+        6 | 7 => HALF + rng.range_i64(-1000, 1000),
+        8 => rng.range_i64(HALF, i64::MAX),
+        9 | 10 => i64::MAX - rng.range_i64(0, 1000),
+        11 => 1i64 << (rng.below(63) as u32),
+        12 => 5_000_000_000_000_000_000 + rng.range_i64(0, 1_000_000_000),
+        _ => rng.range_i64(0, i64::MAX),
+    };
+    if rng.chance(0.5) {
+        mag
+    } else {
+        -mag
     }
 }
-/// clock advance that stays <= 2^60 by construction
-fn advance(rng: &mut Rng, now: i64) -> i64 {
-    let room = LIM - now; // in [0, 2^61]
-    let step = match rng.below(6) {
-        0 => 0,
-        1 => 1,
-        2 => rng.range_i64(1, 1000),
-        3 => rng.step_ns(1_000, 10_000_000_000),
-        4 => rng.range_i64(0, 1i64 << 50),
-        _ => rng.range_i64(0, LIM),
+/// A value of the non-empty interval [lo, hi] (intersected with i64), by construction: a stratified
+/// candidate clamped into it, or a point at / next to one of its ends.
+fn pick_in(rng: &mut Rng, lo: i128, hi: i128) -> i64 {
+    let (lo, hi) = (lo.max(IMIN), hi.min(IMAX));
+    assert!(lo <= hi, "generator bug: empty interval");
+    let near = rng.range_i64(0, 1000) as i128;
+    let v = match rng.below(8) {
+        0 => (lo + near).min(hi),
+        1 => (hi - near).max(lo),
+        _ => (wstamp(rng) as i128).clamp(lo, hi),
     };
-    now + step.min(room)
+    v as i64
+}
+/// clock advance from `base` that stays <= hi (>= base) by construction
+fn advance(rng: &mut Rng, base: i64, hi: i128) -> i64 {
+    let room = hi - base as i128; // >= 0
+    let step = match rng.below(10) {
+        0 => 0,
+        1 | 2 => 1,
+        3 | 4 => rng.range_i64(1, 1000),
+        5 | 6 => rng.step_ns(1_000, 10_000_000_000),
+        7 => rng.range_i64(0, 1i64 << 50),
+        8 => rng.range_i64(0, 1i64 << 60),
+        _ => rng.range_i64(0, i64::MAX),
+    } as i128;
+    (base as i128 + step.min(room)) as i64
 }
 fn gen_err(rng: &mut Rng) -> Er {
     match rng.below(3) {
@@ -94,8 +115,9 @@ fn gen_ev(rng: &mut Rng, pool: &[i64]) -> Ev<i64> {
     match rng.below(10) {
         0..=5 => Ev::Some(free_stamp(rng), val(rng, pool)),
         6 | 7 => Ev::None,
-        8 => Ev::Err(1),
-        _ => Ev::Err(2),
+        // code 0 is the crate's own Error::FromNone (what an upstream NoneToError produces)
+        8 => Ev::Err(0),
+        _ => Ev::Err(*rng.pick(&[1u8, 2])),
     }
 }
 
@@ -226,6 +248,7 @@ impl Op {
             Op::UpdFollow(Some(_)) => 9,
             Op::SrcA(e) => 10 + e.kind().min(2),
             Op::SrcB(e) => 13 + e.kind().min(2),
+            // (the followed-getter category in the distinct key separates FromNone from Other)
             Op::Clock(Ok(_)) => 16,
             Op::Clock(Err(_)) => 17,
             Op::CgSet(_) => 18,
@@ -255,7 +278,7 @@ fn ev_val(e: &Ev<i64>) -> Result<Option<i64>, Er> {
     match e {
         Ev::Some(_, v) => Ok(Some(*v)),
         Ev::None => Ok(None),
-        Ev::Err(c) => Err(Error::Other(*c)),
+        Ev::Err(c) => Err(err_code(*c)),
     }
 }
 /// The executable model (written from the statement).
@@ -302,7 +325,7 @@ impl Model {
         match self.fol {
             None => (Ok(()), "not-following"),
             Some(g) => match self.out(g) {
-                Err(e) => (Err(e), "getter-error"),
+                Err(e) => (Err(e), if e == Error::FromNone { "getter-error-FromNone" } else { "getter-error" }),
                 Ok(None) => (Ok(()), "absent"),
                 Ok(Some(v)) => {
                     let r = self.set(v, reject);
@@ -315,7 +338,7 @@ impl Model {
         match self.cg_fol {
             None => (Ok(()), "not-following"),
             Some(is_b) => match ev_val(if is_b { &self.b } else { &self.a }) {
-                Err(e) => (Err(e), "getter-error"),
+                Err(e) => (Err(e), if e == Error::FromNone { "getter-error-FromNone" } else { "getter-error" }),
                 Ok(None) => (Ok(()), "absent"),
                 Ok(Some(v)) => {
                     self.cg_val = v;
@@ -526,6 +549,7 @@ fn seq_case(rep: &mut Report, seed: u64, case: u64) {
                 Some(g) => match m.out(g) {
                     Ok(Some(_)) => 0,
                     Ok(None) => 1,
+                    Err(Error::FromNone) => 3,
                     Err(_) => 2,
                 },
             };
@@ -661,13 +685,26 @@ fn bucket(x: i128) -> (i8, u8) {
     let s = if x < 0 { -1 } else if x > 0 { 1 } else { 0 };
     (s, ((128 - x.unsigned_abs().leading_zeros()) / 8) as u8)
 }
-fn gen_hclock(rng: &mut Rng, ctl: &Ctl, last_ok: i64) -> ClockOut {
+/// interval of clock readings for which now + offset stays inside i64 (and now > i64::MIN)
+fn clock_room(offset: i128) -> (i128, i128) {
+    ((MINC as i128).max(IMIN - offset), IMAX.min(IMAX - offset))
+}
+fn region(c: &ClockOut) -> i8 {
+    match c {
+        Err(_) => 9,
+        Ok(t) if *t > HALF => 1,
+        Ok(t) if *t < -HALF => -1,
+        Ok(_) => 0,
+    }
+}
+fn gen_hclock(rng: &mut Rng, ctl: &Ctl, last_ok: i64, offset: i128) -> ClockOut {
+    let (lo, hi) = clock_room(offset);
     if ctl.can_err() && rng.chance(0.25) {
         Err(gen_err(rng))
-    } else if rng.chance(0.75) {
-        Ok(advance(rng, last_ok))
+    } else if rng.chance(0.6) {
+        Ok(advance(rng, (last_ok as i128).clamp(lo, hi) as i64, hi))
     } else {
-        Ok(bstamp(rng))
+        Ok(pick_in(rng, lo, hi))
     }
 }
 #[allow(clippy::too_many_arguments)]
@@ -681,16 +718,20 @@ fn hist_case<TG: TimeGetter<E>>(rep: &mut Report, case: u64, rng: &mut Rng, tg: 
     let upd_err = Rc::new(SCell::new(None));
     let mut hist = Hist { queries: queries.clone(), events: events.clone(), mode: mode.clone(), upd_err: upd_err.clone(), salt };
     mode.set(*rng.pick(&[0u8, 0, 1, 2, 4]));
-    let arg = bstamp(rng);
-    let mut clock: ClockOut = Ok(bstamp(rng));
-    let mut last_ok = clock.unwrap();
-    ctl.apply(&clock, rng.next_u64() as i64);
+    // the clock reading at (successful) construction, and the constructor argument built around it
+    let now_c = pick_in(rng, MINC as i128, IMAX);
+    let arg = match ctor {
+        2 => pick_in(rng, IMIN + now_c as i128, IMAX + now_c as i128), // start - now fits
+        3 => pick_in(rng, IMIN - now_c as i128, IMAX - now_c as i128), // now + delta fits
+        _ => wstamp(rng),                                              // unused
+    };
+    let mut clock: ClockOut = Ok(now_c);
+    let mut last_ok = now_c;
     let reads_clock = ctor == 1 || ctor == 2;
     let mut preface = String::new();
     if ctl.can_err() && rng.chance(0.25) {
         let e = gen_err(rng);
-        clock = Err(e);
-        ctl.apply(&clock, rng.next_u64() as i64);
+        ctl.apply(&Err(e), rng.next_u64() as i64);
         if reads_clock {
             // the constructors that read the clock propagate its error
             {
@@ -705,14 +746,15 @@ fn hist_case<TG: TimeGetter<E>>(rep: &mut Report, case: u64, rng: &mut Rng, tg: 
                         format!("{}(arg={}) with the time getter returning Err({:?}) succeeded", cname, arg, e)),
                 }
             }
-            clock = Ok(bstamp(rng));
-            last_ok = clock.unwrap();
             ctl.apply(&clock, rng.next_u64() as i64);
             preface = format!("(first attempt with clock Err({:?})) ", e);
         } else {
             // these two cannot fail; constructing them while the clock errors must not matter
+            clock = Err(e);
             rep.tally("hist_ctor_while_clock_errors");
         }
+    } else {
+        ctl.apply(&clock, rng.next_u64() as i64);
     }
     let now0 = clock;
     // offset fixed by the constructor: the instant of construction maps to 0 / start; or the given delta
@@ -740,18 +782,39 @@ fn hist_case<TG: TimeGetter<E>>(rep: &mut Report, case: u64, rng: &mut Rng, tg: 
         if step > 0 {
             let op = match rng.below(100) {
                 0..=14 => HOp::Get,
-                15..=44 => HOp::Clock(gen_hclock(rng, &ctl, last_ok)),
-                45..=59 => HOp::SetDelta(match rng.below(6) {
-                    0 => 0,
-                    1 => -last_ok,
-                    2 => *rng.pick(&[-1i64, 1]),
-                    _ => bstamp(rng),
-                }),
-                60..=79 => HOp::SetTime(match rng.below(6) {
-                    0 => 0,
-                    1 => last_ok,
-                    _ => bstamp(rng),
-                }),
+                15..=44 => HOp::Clock(gen_hclock(rng, &ctl, last_ok, offset)),
+                45..=59 => {
+                    // deltas for which now + delta fits (any i64 while the clock errors: the next clock
+                    // reading is then chosen to fit the delta)
+                    let (lo, hi) = match clock {
+                        Ok(now) => (IMIN - now as i128, IMAX - now as i128),
+                        Err(_) => (IMIN, IMAX),
+                    };
+                    let (lo, hi) = (lo.max(IMIN), hi.min(IMAX));
+                    HOp::SetDelta(match rng.below(8) {
+                        0 => 0,
+                        1 => (-(last_ok as i128)).clamp(lo, hi) as i64,
+                        2 => (*rng.pick(&[-1i128, 1])).clamp(lo, hi) as i64,
+                        // the delta it already has
+                        3 => offset as i64,
+                        _ => pick_in(rng, lo, hi),
+                    })
+                }
+                60..=79 => {
+                    // targets for which t - now fits (any i64 while the clock errors: nothing is computed)
+                    let (lo, hi) = match clock {
+                        Ok(now) => (IMIN + now as i128, IMAX + now as i128),
+                        Err(_) => (IMIN, IMAX),
+                    };
+                    let (lo, hi) = (lo.max(IMIN), hi.min(IMAX));
+                    HOp::SetTime(match (clock, rng.below(8)) {
+                        // exactly the current clock reading (offset becomes 0), often while it is non-zero
+                        (Ok(now), 0 | 1) => now,
+                        (_, 2) => 0i128.clamp(lo, hi) as i64,
+                        (_, 3) => last_ok,
+                        _ => pick_in(rng, lo, hi),
+                    })
+                }
                 80..=91 => {
                     let h = if rng.chance(0.2) { Some(*rng.pick(&[3u8, 4])) } else { None };
                     let t = if kind == 0 && rng.chance(0.2) { Some(*rng.pick(&[5u8, 6])) } else { None };
@@ -762,7 +825,7 @@ fn hist_case<TG: TimeGetter<E>>(rep: &mut Report, case: u64, rng: &mut Rng, tg: 
             ops.push(op.clone());
             opname = op.name();
             rep.tally(&format!("hist_op/{}", opname));
-            rep.distinct(("hist", ctor, kind, prev, op.code(), clock.is_ok(), bucket(offset)));
+            rep.distinct(("hist", ctor, kind, prev, op.code(), region(&clock), bucket(offset)));
             prev = op.code();
             let ctx = |ops: &Vec<HOp>| format!("{}{}(arg={}) at clock {:?}, clock-kind={}, ops={:?}", preface, cname, arg, now0, kind, ops);
             match &op {
@@ -775,6 +838,9 @@ fn hist_case<TG: TimeGetter<E>>(rep: &mut Report, case: u64, rng: &mut Rng, tg: 
                     ctl.apply(c, rng.next_u64() as i64);
                 }
                 HOp::SetDelta(d) => {
+                    if *d as i128 == offset {
+                        rep.tally("hist_set_delta/current-delta");
+                    }
                     ad.set_delta(Time(*d));
                     offset = *d as i128;
                 }
@@ -783,6 +849,9 @@ fn hist_case<TG: TimeGetter<E>>(rep: &mut Report, case: u64, rng: &mut Rng, tg: 
                     // now maps to t: offset = t - now; a time-getter error is returned and leaves the offset alone
                     let exp = match clock {
                         Ok(now) => {
+                            if *t == now && offset != 0 {
+                                rep.tally("hist_set_time/t-equals-now-with-nonzero-offset");
+                            }
                             offset = *t as i128 - now as i128;
                             rep.tally("hist_set_time_ok");
                             Ok(())
@@ -851,7 +920,17 @@ fn hist_case<TG: TimeGetter<E>>(rep: &mut Report, case: u64, rng: &mut Rng, tg: 
                 }
             }
             Ok(now) => {
+                assert!((IMIN..=IMAX).contains(&offset) && (IMIN..=IMAX).contains(&(now as i128 + offset)), "generator bug: now + offset leaves i64");
                 let q = (now as i128 + offset) as i64; // in range by construction
+                if (now > HALF && offset > 0) || (now < -HALF && offset < 0) {
+                    rep.tally("hist_get/outer-half-clock-with-same-sign-offset");
+                }
+                if now > HALF || now < -HALF {
+                    rep.tally("hist_get/outer-half-clock");
+                }
+                if q == i64::MAX || q == i64::MIN {
+                    rep.tally("hist_get/sum-exactly-at-i64-end");
+                }
                 rep.max("hist_query_abs_log2", (q.unsigned_abs() as f64 + 1.0).log2());
                 rep.max("hist_offset_abs_log2", (offset.unsigned_abs() as f64 + 1.0).log2());
                 // the history must have been asked, and only ever for now + offset
@@ -1054,6 +1133,13 @@ fn main() {
         "seq_update/forwarded",
         "seq_update/absent",
         "seq_update/getter-error",
+        "seq_update/getter-error-FromNone",
+        "seq_cg_update/getter-error-FromNone",
+        "hist_get/outer-half-clock",
+        "hist_get/outer-half-clock-with-same-sign-offset",
+        "hist_get/sum-exactly-at-i64-end",
+        "hist_set_time/t-equals-now-with-nonzero-offset",
+        "hist_set_delta/current-delta",
         "seq_update/rejected",
         "seq_update/not-following",
         "seq_update/settable-without-update_following_data",
